@@ -23,7 +23,8 @@ class C27(EngineACheck):
     ASSUMPTIONS = EngineACheck.ASSUMPTIONS + [
         "the schedule dimension is incidental (the property quantifies over programs)"]
     EXPECTED_PROBES = ["jobs_compared", "exported_options_inherited", "expression_valued_options",
-                       "export_then_options_chains", "runs_with_cache_disabled"]
+                       "export_then_options_chains", "runs_with_cache_disabled",
+                       "jobs_with_cache_scope_option"]
     QUICK_SECONDS = 30.0
 
     def run_one(self, ch: Choices) -> RunOutcome:
@@ -89,6 +90,27 @@ class C27(EngineACheck):
             if got.get("prov") is False and "NONE" not in str(r.cache_scope):
                 out.violate("C27.scheduler_imposed", "noprov-job-uses-cache",
                             {"task": r.task, "cache_scope": r.cache_scope})
+                break
+            # The cache scope itself is an option: definition < exported < call time, then what
+            # the scheduler imposes (no provenance -> NONE; cache disabled -> CSE).
+            if any("cache_scope" in e for e in expected):
+                out.probe("jobs_with_cache_scope_option")
+            allowed = set()
+            for e in expected:
+                if e.get("prov") is False:
+                    allowed.add("NONE")
+                elif no_cache:
+                    allowed.add("CSE")
+                else:
+                    allowed.add(e.get("cache_scope", "BACKEND"))
+            scope = str(r.cache_scope).replace("CacheScope.", "")
+            if scope == "None":
+                scope = "BACKEND"
+            if scope not in allowed:
+                out.violate("C27.scheduler_imposed" if no_cache else "C27.options_at_handoff",
+                            "cache-scope",
+                            {"task": r.task, "cache_scope": r.cache_scope,
+                             "reference_allows": sorted(allowed), "cache_disabled": no_cache})
                 break
         if inherited_seen:
             out.probe("exported_options_inherited")
